@@ -82,6 +82,10 @@ def deep_narrow(tier, prefix):
     for cap, ex in itertools.product(["none", 2], exps):
         kw = dict(dict(kind="S", cap=cap, w=0, hash="spread", alpha="basic", keys=2, D=9 if thorough else 8, Q=3, A=2, beyond=1, tick=1000), **ex)
         out.append(seqjob(name(prefix + "deep", kw), **kw))
+    # capacities at and above 2^63 (every "room left" computation is near the ends of u64)
+    for kind, cap in itertools.product(("U", "S"), (1 << 63, (1 << 64) - 1)):
+        kw = dict(kind=kind, cap=cap, w=1, hash="spread", alpha="weights", keys=2, D=6 if thorough else 5, Q=3, A=0, beyond=1, tick=1000)
+        out.append(seqjob(name(prefix + "hugecap", kw), **kw))
     return out
 
 
@@ -231,6 +235,10 @@ def sketch_space(tier):
     # larger capacities (incl. non powers of two): shallow, index bounds + per-step oracle
     for cap in (128, 129, 200, 1024, 1000003, 1 << 20):
         out.append({"id": "sketch-big-%d" % cap, "argv": ["sketchx", str(cap), "empty", "5", "7" if thorough else "5"]})
+    # aging of large tables (more slots than any chunked sweep would cover): one fixed
+    # history per capacity up to and past the first aging steps, whole table vs reference
+    for cap in (5000, 70000, 300000) + ((1200000,) if thorough else ()):
+        out.append({"id": "sketch-aging-big-%d" % cap, "argv": ["sketchbig", str(cap)]})
     # cache-level clause: only get is recorded, once
     for kind in ("U", "S"):
         for cap, h in itertools.product([2, 3], ["spread", "collide"]):
@@ -349,7 +357,7 @@ def jobs_for(prop, tier):
         j = j + bigw_space(tier)
     # scale scenarios with u32 keys (E1c): more evictions than one batch, more consecutive
     # invalidations than the write log holds, 70 000 entries of weight u32::MAX
-    if prop in ("C04", "C10"):
+    if prop in ("C04", "C10", "C08"):
         j = j + [{"id": "scalex-bigexcess", "argv": ["scalex", "bigexcess"]}]
     if prop in ("C09", "C10"):
         j = j + [{"id": "scalex-invalidate-burst", "argv": ["scalex", "invalidate-burst"]}]
